@@ -17,7 +17,10 @@ def scenario(kind, ending, idx, fault, k, init_state=None, stateful=False, m=0):
     w = None
     try:
         L = None
-        if fault:
+        if fault == 3:
+            # the parent-side forwarding thread of a remote worker is slow at its k-th statement
+            L = wsim.Landing(W, kind, k, action="delay", select=wsim.frontend_actor, delay=3.0)
+        elif fault:
             L = wsim.Landing(W, kind, k, action=("hold" if fault == 1 else "kill"))
         try:
             if stateful:
@@ -56,6 +59,11 @@ def scenario(kind, ending, idx, fault, k, init_state=None, stateful=False, m=0):
                 rec["landed"] = L.wait()
                 rec["label"] = L.label
                 rec["marks_at_landing"] = list(T.MARKS)
+            elif fault == 3:
+                rec["early_wait"] = w.wait(timeout=1)
+                rec["landed"] = L.landed
+                rec["label"] = L.label
+                rec["obs_early"], rec["obs_early_err"] = wsim.observe(w)
             if L is not None:
                 L.release()
             rec["wait"] = w.wait(timeout=TMO)
